@@ -214,6 +214,12 @@ def extra_templates():
                              ("alias_equals_module", "use a\nuse b as a\n", "a.v"), ("from_same_name", "from a use v\nfrom b use v\n", "v")):
         main = imports + "start :: fn do\n    print(%s + ?a)\nend\n" % use
         out.append({"name": "namespace_name_bound_twice_" + nm, "role": "name-bound-to-two-modules(%s)" % nm, "text": main, "files": dict(two), "ref_text": "start :: fn do\n    print(?a)\nend\n", "dom": {"a": (0, 3)}, "expect": "reject"})
+    # (4) the entry point is the `start` the MAIN file binds, not a `start` of some other module
+    for nm, imports in (("import_then_use", "from b use start\nuse a\n"), ("use_then_import", "use a\nfrom b use start\n")):
+        out.append({"name": "entry_point_" + nm, "role": "entry-point-is-the-main-file's-start(%s)" % nm, "text": imports + "k :: ?a\n", "files": {"a.sy": "start :: fn do\n    print(1)\nend\n", "b.sy": "start :: fn do\n    print(2)\nend\n"},
+                    "ref_text": "k :: ?a\nstart :: fn do\n    print(2)\nend\n", "dom": {"a": (0, 1)}, "expect": "accept"})
+    out.append({"name": "entry_point_own_start_and_imported_module_with_start", "role": "entry-point-is-the-main-file's-start(own)", "text": "use a\nstart :: fn do\n    print(?a)\nend\n", "files": {"a.sy": "start :: fn do\n    print(7)\nend\n"},
+                "ref_text": "start :: fn do\n    print(?a)\nend\n", "dom": {"a": (0, 3)}, "expect": "accept"})
     return out
 
 
